@@ -132,8 +132,8 @@ def strings_over(alphabet, maxlen):
 _MB = [c.encode() for c in ["à", "\u00a0", "\u0085", "\u2028", "\u3000", "だ", "Ł", "ź", "б", "乡", "…", "\u2003", "ſ", "ß", "ς", "µ", "ǅ", "İ"]]
 _WORDS = _MB + [b"a", b"foo", b"bar", b"b c", b"x", "é".encode(), b"1", b"#", b"*a*", b"_b_", b"`c`", b"\\*", b"&amp;", b"<b>", b"a*", b"_", b"!", b"]", b"["]
 _LABELS = [b"x\x00y", b"\x00", b"a\x00\x00b", b"foo", b"bar", b"Foo", b"bar baz", b"a", "ß".encode(), b"x y", b"1", "straße".encode(), b"STRASSE", "ΟΔΟΣ".encode(), "οδος".encode(), "ſ".encode(), b"S", "µ".encode(), "Μ".encode()]
-_DESTS = [b"/\xc5\x81", "/б乡".encode(), b"/url", b"/u", b"<v w>", b"<>", b"http://x.y/z", b"/a(b)c", b"/a\\)b", b"<a\\>b>", b"/u%20v", b"#f"]
-_TITLES = [b"\"t\"", b"'t'", b"(t)", b"\"t u\"", b"'a \"q\" b'", b"\"t", b"(t (u) v)", b"\"&amp;\\\"\"", b"''"]
+_DESTS = [b"/ux\\", b"<v\\", b"/\xc5\x81", "/б乡".encode(), b"/url", b"/u", b"<v w>", b"<>", b"http://x.y/z", b"/a(b)c", b"/a\\)b", b"<a\\>b>", b"/u%20v", b"#f"]
+_TITLES = [b"\"t\\", b"'t\\", b"(t\\", b"\"t\"", b"'t'", b"(t)", b"\"t u\"", b"'a \"q\" b'", b"\"t", b"(t (u) v)", b"\"&amp;\\\"\"", b"''"]
 
 
 def _inline_template(rng):
